@@ -95,6 +95,7 @@ def _unit_worker(args):
             "unsupported": r.unsupported, "paths": r.paths, "outcomes": r.outcomes,
             "functions": funcs, "assumed": sorted(r.assumed_lib), "assumptions": sorted(r.assumptions),
             "gen_time": round(r.gen_time, 3), "sample_smt2": sample, "replay": getattr(u, "replay", None),
+            "advisory": bool(getattr(u, "advisory", False)),
             "clause": getattr(u, "prop_clause", None), "wall": round(time.time() - t0, 3)}
 
 
@@ -152,6 +153,7 @@ def check(prop_id, tier, seed):
         for ob in ur["obligations"]:
             ob["unit"] = ur["unit"]
             ob["replay"] = ur.get("replay")
+            ob["advisory"] = ur.get("advisory", False)
             obligations.append(ob)
             solver_time += ob["time_s"]
             if ob["status"] == "discharged":
@@ -270,7 +272,10 @@ def check(prop_id, tier, seed):
                 confirmed = bad[0]
         # shape obligations compare source text of grammar productions: a failure there is advisory
         # (a harmless refactoring changes the text) and counts only if the native recogniser confirms it
-        advisory = o["name"].startswith("lemma:grammar.shapes/")
+        # (the same holds for the other lemmas that read the source text - registration, identity comparison, grammar
+        #  defaults: they are conditions on how the code is written, sufficient but not necessary for the property, so a
+        #  failure is a verdict only together with a failing input from their replay task)
+        advisory = o["name"].startswith("lemma:grammar.shapes/") or o.get("advisory", False)
         # path ordinals (#k) are renumbered when the code changes: a clause counts as proved on the reference tree when
         # all its instances were discharged there (the baseline lists only discharged obligations and is recorded from a
         # run without undecided ones)
